@@ -172,6 +172,70 @@ func driverSnap(c *Ctx) {
 		ev2["ev"], ev2["kind"] = "snap", "msg"
 		c.emit(i, ev2)
 		c.count("snap.cases")
+		if i%10 == 0 {
+			emptyItemCases(c, i, g)
+		}
+	}
+}
+
+// emptyItemCases: trees that hold an explicit empty item as a list element (passed to the list factory, or filled into a
+// list-level variable to leave an optional sub-item out), alone, next to real variables, and further down. Such a list
+// has nothing to print or encode at that position; whether it is refused, or built and never encodable, the variable
+// list and the encoding must tell the same story.
+func emptyItemCases(c *Ctx, i int, g *Gen) {
+	empty := ast.NewEmptyItemNode
+	v1, v2 := g.newVar(), g.newVar()
+	leaf := func() ast.ItemNode { return ast.NewUintNode(1, g.pick(200)) }
+	shapes := []struct {
+		how  string
+		real []string // the real variables, in printing order
+		mk   func() ast.ItemNode
+	}{
+		{"direct", nil, func() ast.ItemNode { return ast.NewListNode(empty()) }},
+		{"direct-siblings", nil, func() ast.ItemNode { return ast.NewListNode(leaf(), empty(), ast.NewASCIINode("a")) }},
+		{"direct-nested", nil, func() ast.ItemNode { return ast.NewListNode(leaf(), ast.NewListNode(ast.NewListNode(empty(), leaf()))) }},
+		{"direct-with-var", []string{v1}, func() ast.ItemNode { return ast.NewListNode(empty(), ast.NewUintNode(2, v1)) }},
+		{"fill", nil, func() ast.ItemNode {
+			return ast.NewListNode(leaf(), v1).FillVariables(map[string]interface{}{v1: empty()})
+		}},
+		{"fill-nested", nil, func() ast.ItemNode {
+			return ast.NewListNode(leaf(), ast.NewListNode(ast.NewASCIINode("x"), v1)).FillVariables(map[string]interface{}{v1: empty()})
+		}},
+		{"fill-one-of-two", []string{v2}, func() ast.ItemNode {
+			return ast.NewListNode(v1, leaf(), v2).FillVariables(map[string]interface{}{v1: empty()})
+		}},
+		{"fill-then-rest", nil, func() ast.ItemNode {
+			return ast.NewListNode(v1, ast.NewIntNode(1, v2)).FillVariables(map[string]interface{}{v1: empty()}).FillVariables(map[string]interface{}{v2: 5})
+		}},
+	}
+	for _, sh := range shapes {
+		ev := J{"ev": "snapempty", "how": sh.how, "built": false, "vars": []interface{}{}, "real": []interface{}{}, "bytes": []int{}, "size": -2,
+			"msgbuilt": false, "msgvars": []interface{}{}, "msgbytes": []int{}}
+		real := []interface{}{}
+		for _, n := range sh.real {
+			real = append(real, chars(n))
+		}
+		ev["real"] = real
+		var it ast.ItemNode
+		if p, _ := try(func() { it = sh.mk() }); !p && it != nil {
+			ev["built"] = true
+			vs := []interface{}{}
+			for _, n := range it.Variables() {
+				vs = append(vs, chars(n))
+			}
+			ev["vars"], ev["bytes"], ev["size"] = vs, bytesJ(it.ToBytes()), it.Size()
+			var m *ast.DataMessage
+			if p, _ := try(func() { m = ast.NewDataMessage("m", 1, 1, 1, "H->E", it).SetSessionIDAndSystemBytes(1, []byte{0, 0, 0, 1}) }); !p && m != nil {
+				ev["msgbuilt"] = true
+				mv := []interface{}{}
+				for _, n := range m.Variables() {
+					mv = append(mv, chars(n))
+				}
+				ev["msgvars"], ev["msgbytes"] = mv, bytesJ(m.ToBytes())
+			}
+		}
+		c.emit(i, ev)
+		c.count("snap.emptyitem")
 	}
 }
 
